@@ -137,7 +137,9 @@ func checkC01(w *World, r *Report) {
 		if ok {
 			sc := recordField(written, "SellingCoin", true)
 			inAmount := credited.Any(func(t *Term) bool { return t.Key() == sc.Key() })
-			pure := !credited.Any(func(t *Term) bool { return t.Op == "call" && (mathName(t) != "" || strings.HasPrefix(t.Name, sdkPath+".Coin.")) })
+			pure := !credited.Any(func(t *Term) bool {
+				return t.Op == "call" && (mathName(t) != "" || strings.HasPrefix(t.Name, sdkPath+".Coin."))
+			})
 			if !inAmount || !pure || sc.Op == "zero" {
 				ok, why = false, fmt.Sprintf("credited %s but the record's SellingCoin is %s", credited.String(), sc.String())
 			}
